@@ -32,7 +32,7 @@ class Mirror:
             return s[op[1]] is None
         if k == 'W':
             return s[op[1]] is not None and s[op[1]][0] == 'F' and op[2] < len(coords_of(self.name, s[op[1]][1]))
-        if k in ('K', 'M'):
+        if k in ('K', 'M', 'L'):
             return s[op[1]] is None and s[op[2]] is not None and (k == 'M' or s[op[2]][0] == 'F')
         if k in ('A', 'B'):
             return s[op[1]] is not None and s[op[2]] is not None and (s[op[2]][0] == 'F' or op[1] == op[2])
@@ -51,7 +51,7 @@ class Mirror:
             m = len(op[3])
             d[op[2] * m:(op[2] + 1) * m] = op[3]
             s[op[1]] = ('F', t[1], d)
-        elif k == 'K':
+        elif k in ('K', 'L'):
             s[op[1]] = s[op[2]]
         elif k == 'M':
             s[op[1]] = s[op[2]]
@@ -104,8 +104,8 @@ def render(name, nslots, ops):
             c = coords_of(name, mir.s[s_][1])[cell]
             hops.append(f'wr {s_} ' + ' '.join(map(str, c)) + ' ' + ' '.join(map(str, vals)))
         else:
-            code = {'K': 'copy', 'M': 'move', 'A': 'cassign', 'B': 'massign', 'D': 'del'}[k]
-            mops.append(' '.join([k] + [str(x) for x in op[1:]]))
+            code = {'K': 'copy', 'M': 'move', 'A': 'cassign', 'B': 'massign', 'D': 'del', 'L': 'reload'}[k]
+            mops.append(' '.join(['K' if k == 'L' else k] + [str(x) for x in op[1:]]))
             hops.append(code + ' ' + ' '.join(str(x) for x in op[1:]))
         mir.apply(op)
         rd = []
@@ -128,7 +128,7 @@ def small_ops(name, r):
     d0 = [sc.fbits(tv, float(i + 1)) for i in range(len(coords_of(name, sz0)) * m)]
     d1 = [sc.fbits(tv, float(10 * (i + 1))) for i in range(len(coords_of(name, sz1)) * m)]
     w = [sc.fbits(tv, 99.5)] * m
-    return [('C', 0, sz0, d0), ('C', 1, sz1, d1), ('W', 0, 0, w), ('W', 1, 1, w), ('K', 0, 1), ('K', 1, 0), ('M', 0, 1), ('M', 1, 0),
+    return [('C', 0, sz0, d0), ('C', 1, sz1, d1), ('W', 0, 0, w), ('W', 1, 1, w), ('K', 0, 1), ('K', 1, 0), ('L', 0, 1), ('L', 1, 0), ('M', 0, 1), ('M', 1, 0),
             ('A', 0, 0), ('A', 0, 1), ('A', 1, 0), ('A', 1, 1), ('B', 0, 0), ('B', 0, 1), ('B', 1, 0), ('B', 1, 1), ('D', 0), ('D', 1)]
 
 
@@ -150,7 +150,7 @@ def random_history(name, r, nslots, length):
     tries = 0
     while len(ops) < length and tries < length * 40:
         tries += 1
-        k = r.choice(['C', 'W', 'W', 'K', 'M', 'A', 'A', 'B', 'D'])
+        k = r.choice(['C', 'W', 'W', 'K', 'L', 'M', 'A', 'A', 'B', 'D'])
         a, b = r.below(nslots), r.below(nslots)
         if k == 'C':
             sizes = [r.range(1, 4)] if (name.startswith('array') or n == 1) else [r.range(1, 3) for _ in range(n)]
@@ -176,8 +176,8 @@ def run(replay=None):
     thorough = chk.tier == 'thorough'
     chk.cov['rule'] = (
         'operation histories over a pool of field slots of one type (array / row-major / Morton / Hilbert / clamp-over-row-major storage, 1..3 output components, float and double): construction from data, '
-        'writes through a view, copy and move construction, copy and move assignment INCLUDING self-assignment, destruction. EXHAUSTIVE: every in-contract history of length <= 3 over 2 slots '
-        '(18 parametrised operations) for each field type; seeded random histories of length 40 over 4 slots (longer in the thorough tier). After EVERY operation every live, non-moved-from field is read back at '
+        'writes through a view, copy and move construction, construction from a dump of another field, copy and move assignment INCLUDING self-assignment, destruction. EXHAUSTIVE: every in-contract history of length <= 3 over 2 slots '
+        '(20 parametrised operations, a dump-and-reload construction among them; length <= 4 for the plain array type in the thorough tier) for each field type; seeded random histories of length 40 over 4 slots (longer in the thorough tier). After EVERY operation every live, non-moved-from field is read back at '
         'EVERY coordinate through a fresh view and compared with the run of the Coq ownership model (concrete level, which the theorem C12_history_refines proves equal to plain value semantics); the process runs under '
         'ASan + LeakSanitizer + UBSan in an assertion build and in -O2 -DNDEBUG, so a double free, use after free, leak or value-returning function that returns nothing is a failure. '
         'A case = (field type, history); non-trivial = contains at least one copy/move/assign; distinct by those.')
@@ -198,6 +198,8 @@ def run(replay=None):
         use = alpha
         if not thorough and t not in ('array.1.f32', 'strided.2.u64/array.2.f32'):
             maxlen = 2
+        if thorough and t == 'array.1.f32':
+            maxlen = 4
         for ln in range(1, maxlen + 1):
             for seq in itertools.product(use, repeat=ln):
                 if valid(t, 2, seq):
@@ -244,7 +246,7 @@ def run(replay=None):
     for i, (t, ns, ops) in enumerate(hist):
         id_ = str(i)
         n, m, tv = shape_info(t)
-        chk.count_case((t, json.dumps(ops)), any(o[0] in 'KMAB' for o in ops))
+        chk.count_case((t, json.dumps(ops)), any(o[0] in 'KMABL' for o in ops))
         mo = model.get(id_)
         # model groups: one per model op; writes of M components produce M groups -> keep the last of each
         mg = mo.split(' | ') if mo else None
